@@ -2157,7 +2157,19 @@ fn run_conc(m: &mut Model, rep: &mut Report, stream: &str, case: &ConcCase, rng:
         }
     }
     if !survivors_ok(&r) {
-        failures.push((site.to_string(), "an artifact that exists and that no thread deleted cannot be read back after the interleaving".to_string(), missing(&r), "missing"));
+        // the chunks behind this failure are the missing chunks of artifacts that NO thread deleted: a chunk listed only by a
+        // resurrected artifact (deleted by a thread, its metadata put back by an overlapping set_meta — outside the quantifier,
+        // observed below) lost its references by that delete and may be collected
+        let dead_only: BTreeSet<String> = resurrected
+            .iter()
+            .flat_map(|ix| r.ts.get(&format!("{META_PREFIX}{}", r.ids[*ix])).ok().and_then(|t| t_ptrs(&t, "_chunks")).unwrap_or_default())
+            .filter(|k| {
+                !r.expect.iter().any(|(ix, e)| e.is_some() && r.ts.get(&format!("{META_PREFIX}{}", r.ids[*ix])).ok().and_then(|t| t_ptrs(&t, "_chunks")).unwrap_or_default().contains(k))
+            })
+            .map(|k| r.known.get(&k).map(|d| hex(d)).unwrap_or_else(|| format!("?{k}")))
+            .collect();
+        let dmg: BTreeSet<String> = missing(&r).difference(&dead_only).cloned().collect();
+        failures.push((site.to_string(), "an artifact that exists and that no thread deleted cannot be read back after the interleaving".to_string(), dmg, "missing"));
     }
     let low_refs = |r: &Real| -> bool {
         occurrences(&r.ts).iter().any(|(k, o)| r.ts.get(k).ok().and_then(|t| t_int(&t, "_refs")).unwrap_or(0) < *o)
@@ -3244,7 +3256,7 @@ fn aging_stream(m: &mut Model, rep: &mut Report, r: &mut Rng, batches: u64, per_
         }
         aging_batch(m, rep, "aging", &cases, &mut shrunk);
     }
-    rep.hit_n("aging.wall_clock_ms", t0.elapsed().as_millis() as u64);
+    rep.note(&format!("stream `aging`: {batches} batch(es) of {per_batch} cases took {:.1} s of wall clock (mostly waiting for second boundaries)", t0.elapsed().as_secs_f64()));
 }
 
 fn main() {
